@@ -1197,6 +1197,23 @@ def run_order(ctx, res, thorough):
                 continue
             if impl != python_order:
                 res.count("order_cases_where_the_analysis_differs_from_python")
+            # the first pass of the analysis (IntroVisitorIndirect: its ordered loads and calls feed the load-order check) visits the
+            # same calls: its order is compared with Python's and the model's too
+            try:
+                from dds._introspect_indirect import introspect_indirect
+                ectx2 = EvalMainContext(f.__module__, whitelisted_packages=di._accepted_packages, start_globals={}, resolved_references=OrderedDict())
+                fii = introspect_indirect(f, ectx2)
+                ind = [int(str(x.fun_path).strip("<>").split("/")[-1][1:]) for x in fii.indirect_deps if hasattr(x, "fun_path")]
+            except BaseException as ex:
+                ind = "EXC:%s:%s" % (type(ex).__name__, str(ex)[:120])
+            if isinstance(ind, list):
+                # (a call is recorded when it is met and once more when the name of its function is visited: first occurrences)
+                ind = [x for i_, x in enumerate(ind) if x not in ind[:i_]]
+            res.count("order_cases_indirect_pass_%s" % ("in_python_order" if ind == python_order else "other"))
+            if ind != python_order:
+                res.disagreements.append({"what": "the first pass of the analysis (the one whose ordered loads and calls feed the load-order check) meets the calls of an "
+                                                  "expression in the order %s, Python makes them in the order %s (model pyOrder: %s)" % (
+                                                      ind, python_order, answers[idx].get("python") if answers else None), "source": render_ce(e)})
             if not answers:
                 if impl != python_order:
                     res.disagreements.append({"what": "calls analysed in the order %s, Python makes them in the order %s" % (impl, python_order), "source": render_ce(e)})
